@@ -126,9 +126,41 @@ class Guards:
                 for d in util.own_nodes(g, ast.Dict):
                     for kk, vv in zip(d.keys, d.values):
                         if kk is not None and util.const(kk) == keyname:
+                            vv = self._entry_after_updates(g, d, keyname, vv)
+                            if vv is None:
+                                return None  # the entry can be overridden by a later update() with caller-supplied content
                             res.append(self.trace(g, vv, depth + 1, seen))
             return _merge(res) if res else None
         return None
+
+    def _entry_after_updates(self, g, dict_node, keyname, value):
+        """The value of dict entry `keyname` as later readers see it: a dict literal bound to a local name may be changed
+        afterwards by `name.update(other)` (any key can be overridden -> None, unknown) or by `name[key] = v` (-> v)."""
+        st = util.enclosing_stmt(dict_node)
+        if not (isinstance(st, ast.Assign) and len(st.targets) == 1 and isinstance(st.targets[0], ast.Name) and st.value is dict_node):
+            return value
+        name = st.targets[0].id
+        later = [n for n in ast.walk(g.node) if isinstance(n, ast.stmt) and (n.lineno, n.col_offset) > (st.lineno, st.col_offset)]
+        later.sort(key=lambda n: (n.lineno, n.col_offset))
+        cur = value
+        for n in later:
+            if isinstance(n, ast.Expr) and isinstance(n.value, ast.Call) and isinstance(n.value.func, ast.Attribute) \
+                    and n.value.func.attr in ("update", "setdefault", "pop", "clear") and isinstance(n.value.func.value, ast.Name) \
+                    and n.value.func.value.id == name:
+                c = n.value
+                if c.func.attr == "update":
+                    arg = c.args[0] if c.args else None
+                    if isinstance(arg, ast.Dict) and all(k is not None and util.const(k) != keyname for k in arg.keys) and not c.keywords:
+                        continue
+                    if arg is None and all(k.arg is not None and k.arg != keyname for k in c.keywords):
+                        continue
+                    cur = None
+                elif c.func.attr in ("pop", "clear"):
+                    cur = None
+            elif isinstance(n, ast.Assign) and len(n.targets) == 1 and isinstance(n.targets[0], ast.Subscript) \
+                    and isinstance(n.targets[0].value, ast.Name) and n.targets[0].value.id == name and util.const(n.targets[0].slice) == keyname:
+                cur = n.value
+        return cur
 
     def _trace_param(self, f, pname, depth, seen):
         callers = self.ctx.cg.callers_of(f)
